@@ -26,13 +26,14 @@ PY
   i=0
   while read id file; do
     i=$((i+1)); [ $((i % lanes)) -eq $((k % lanes)) ] || continue
-    if ! git -C $copy apply $mut/$id.diff 2>/dev/null; then echo "$id $file APPLY-FAILED"; continue; fi
+    if [ -f $mut/$id.py ]; then cp $mut/$id.py $copy/src/haiway/$file          # whole mutated file (tools/mutate2.py)
+    elif ! git -C $copy apply $mut/$id.diff 2>/dev/null; then echo "$id $file APPLY-FAILED"; continue; fi
     if ! (cd $copy && PYTHONPATH=$copy/src timeout 120 /venv/bin/python -m pytest -q -x -p no:cacheprovider >/dev/null 2>&1); then
       echo "$id $file killed-by-tests"; git -C $copy checkout -q -- .; continue
     fi
     case $file in
       *retries*) props="C14";; *caching*) props="C12 C13";; *throttling*) props="C15";; *timeouted*) props="C16";;
-      *queue*) props="C17";; *access*) props="C02 C06 C07 C08 C11 C01 C19";; *tasks*) props="C02 C06 C07 C03";;
+      *queue*) props="C17";; *access*) props="C02 C06 C07 C08 C11 C01 C19 C09 C10";; *tasks*) props="C02 C06 C07 C03 C08";;
       *disposables*) props="C08 C02 C07";; *context/state*) props="C01 C03 C02";; *metrics*) props="C09 C10 C19";;
       *validation*) props="C05 C04";; *structure*) props="C04 C05 C20";; *missing*) props="C20";;
       *asynchrony*|*tracing*) props="C18";; *mimic*) props="C18 C15";;
